@@ -1131,6 +1131,9 @@ class ServiceInstance:
         self._task.cancel()
         asyncio.create_task(wait_cancelled(self._task))
         self._task = None
+        # a stopped instance must not answer FindService any more (the offer task only
+        # clears this flag when it is cancelled while still running)
+        self._can_answer_offers = False
 
         # cyclic tasks send stop when they are cancelled
         if not self.timings.CYCLIC_OFFER_DELAY:
